@@ -637,7 +637,11 @@ func hexHead(b []byte, state int) string {
 
 // goroutineDump returns the stacks of all goroutines (evidence for a failing canary).
 func goroutineDump() string {
-	buf := make([]byte, 1<<20)
-	n := runtime.Stack(buf, true)
-	return string(buf[:n])
+	for sz := 1 << 20; ; sz *= 4 {
+		buf := make([]byte, sz)
+		n := runtime.Stack(buf, true)
+		if n < sz || sz >= 64<<20 {
+			return string(buf[:n])
+		}
+	}
 }
